@@ -315,6 +315,8 @@ def run(chk, ctx):
     r3(chk, ctx, p, se)
     r4(chk, ctx, p, se)
     from . import round3
+    from . import c04
+    c04.r3(chk, ctx)                                         # correlation keys are unique per event: results land in the join of the iteration that asked
     round3.terminated_range(chk, ctx)
     round3.sentinel_guard(chk, ctx)
     chk.assume("one terminal event per branch reaches the join (C02/C03 clauses); indexed writes to distinct slots commute")
